@@ -152,6 +152,9 @@ def _load_from_file_system(hashed_grammar, path, p_time, cache_path=None):
             # time may still be older than the one of the cache file (e.g.
             # a copy that preserves timestamps).
             return None
+        # A damaged file can also unpickle to an incomplete item.
+        for name in ('node', 'lines', 'last_used'):
+            getattr(module_cache_item, name)
     except Exception:
         # A missing, unreadable, truncated or otherwise corrupt cache file is
         # simply a cache miss.
